@@ -102,6 +102,7 @@ class PsatSeam:
 
 
 _SLE_REC = {'x': None}
+COARSE_ACTIVITY_ORACLE = False    # calibration: the unchanged tree shows it (shgo, about 1 in 6000 runs: KF-C15-3), so it stays a probe
 
 
 def _install_sle_recorder():
@@ -1345,7 +1346,7 @@ class SplitWorld(BaseWorld):
         names = sorted(self.streams)
         for _ in range(40):
             if self.family == 'lle':
-                op = rngs.sched.choices(['lle', 'edit', 'restart', 'reset_cache', 'lle_query'], [10, 3, 1, 1, 1.5])[0]
+                op = rngs.sched.choices(['lle', 'edit', 'restart', 'reset_cache', 'lle_query'], [10, 3, 1, 1, 2.5])[0]
             else:
                 op = rngs.sched.choices(['sle', 'edit', 'restart', 'reset_cache'], [10, 3, 1, 1])[0]
             # decanter / crystalliser tasks: a task works on ONE stream for 2-6 operations (so that the
@@ -1706,6 +1707,21 @@ class SplitWorld(BaseWorld):
             if wL < wl - TOP_TOL:
                 self.fail('top-chemical', f'top chemical {ev["top"]} has mass fraction {wL!r} in L and '
                                           f'{wl!r} in l', detail)
+        # (a0) coarse form of the equal-activity clause, evaluated for every method (also where the listed
+        # findings switch the fine clause off): a chemical that makes up more than 5 % of one liquid cannot be
+        # entirely absent from the other one - its activity there would be zero
+        if two:
+            xL = after['L'] / after['L'].sum()
+            xl = after['l'] / after['l'].sum()
+            gone = ((xL > 0.05) & (after['l'] == 0.)) | ((xl > 0.05) & (after['L'] == 0.))
+            self.stats['judged:coarse-activity'] += 1
+            if gone.any():
+                self.stats['probe:bulk_chemical_absent_from_other_liquid'] += 1
+                if COARSE_ACTIVITY_ORACLE:
+                    kk = int(np.argmax(gone))
+                    self.fail('equal-activity', f'lle(T={ev["T"]}, method={self.cfg["method"]!r}) returned two liquids; '
+                              f'{self.pk.ids[kk]} makes up {max(xL[kk], xl[kk]):.3g} of one of them and is entirely '
+                              f'absent from the other (activity zero)', detail)
         # (a) equal activities
         if two and ev.get('activity', True):
             idx, aL, al = self.activities(after, ev['T'])
